@@ -77,7 +77,7 @@ def _patch(env):
     import atomica.cascade as acs
 
     am, ap, au, apar, afp = mr.modules()
-    return env.installed(shim.patches_for(apl, ares, acs, am, au, afp))
+    return env.installed(shim.patches_for(apl, ares, acs, am, au, afp, join_nonfinite_default=True))
 
 
 def _series(d):
@@ -235,6 +235,34 @@ def cascade_vals_body():
     return body
 
 
+def adhoc_cascade_body():
+    """An ad hoc cascade is either rejected as not properly nested or its stage values never increase"""
+
+    def body(env):
+        import atomica.cascade as acs
+
+        with _patch(env):
+            P, m, res = _result(env)
+            names = [p.name for p in m.pops]
+            cases = {
+                "nested": {"everyone": ["alive"], "known": ["known"], "care": ["tx"]},
+                "third_stage_inside_first_but_not_second": {"everyone": ["alive"], "known": ["known"], "odd": ["undx", "tx"]},
+                "second_stage_outside_first": {"known": ["known"], "everyone": ["alive"]},
+            }
+            for label, casc in cases.items():
+                try:
+                    vals, t = acs.get_cascade_vals(res, cascade=casc, pops=names[0])
+                except acs.InvalidCascade:
+                    env.claim("properly_nested_cascade_is_accepted|%s" % label, env.true(label != "nested"), key="cascade_accept")
+                    continue
+                stages = list(vals.keys())
+                for a, b in zip(stages, stages[1:]):
+                    for ti in range(len(m.t)):
+                        env.claim("adhoc_cascade_non_increasing|%s|%s>=%s|t%d" % (label, a, b, ti), env.ge(vals[a][ti], vals[b][ti]), key="adhoc_cascade_monotone")
+
+    return body
+
+
 def cascade_data_body():
     def body(env):
         import atomica.cascade as acs
@@ -281,10 +309,12 @@ def specs(tier):
     if tier != "quick":
         out.append(("independence[explicit sum]", independence_body, dict(outs=[{"care_cascade": ["dx", "tx"]}, {"probs": ["test", "ret"]}], pop_specs=[0, "agg_all"], output_aggregation="sum", pop_aggregation="sum")))
         out.append(("independence[explicit average]", independence_body, dict(outs=[{"probs": ["test", "ret"]}, "tx", "loss"], pop_specs=["agg_all", "agg_two"], output_aggregation="average", pop_aggregation="average")))
+    out.append(("independence[weighted population aggregation]", independence_body, dict(outs=["test", "tx"], pop_specs=["agg_two", 2, "agg_all"], pop_aggregation="weighted")))
     out.append(("sums_and_averages", sums_body, dict()))
     for op in ("construct", "accumulate_sum", "accumulate_integrate", "time_aggregate"):
         out.append(("purity[%s]" % op, purity_body, dict(op=op)))
     out.append(("cascade_values", cascade_vals_body, dict()))
+    out.append(("cascade_adhoc", adhoc_cascade_body, dict()))
     out.append(("cascade_data", cascade_data_body, dict()))
     return out
 
